@@ -509,12 +509,39 @@ def clonetable():
           "/-- containers of containers (a shallow copy shares the inner lists with the template) -/",
           "def cloneMustDeepcopy : List String := " + lean_str_list(CLONE_MUST_DEEPCOPY), "",
           "/-- tables and lists an instance writes to (set_value, set_der(scale=), set_initial, subject_to, state(), …): never shared by reference -/",
-          "def cloneMustNotShare : List String := " + lean_str_list(CLONE_MUST_NOT_SHARE), "", "end Rockit.Generated", ""]
+          "def cloneMustNotShare : List String := " + lean_str_list(CLONE_MUST_NOT_SHARE), "",
+          "/-- the chain in `Stage.clone` that maps the template's time placeholders onto the instance's: (`self.X` tested, `ret.Y` appended) -/",
+          "def cloneTimeSymbols : List (String × String) := [" + ", ".join('("%s", "%s")' % pr for pr in _clone_time_symbols()) + "]", "",
+          "end Rockit.Generated", ""]
     path = os.path.join(OUT, "Clone.lean")
     new_src = "\n".join(L)
     if not os.path.exists(path) or open(path).read() != new_src:
         open(path, "w").write(new_src)
     return tab
+
+
+def _clone_time_symbols():
+    """[(X, Y)] for every branch `if/elif is_equal(k, self.X): subst_to.append(ret.Y)` of Stage.clone"""
+    tree = ast.parse(open(os.path.join(REPO, "rockit", "stage.py")).read())
+    fn = _find_function(tree, "Stage", "clone")
+    out = []
+    if fn is None:
+        return out
+    for n in ast.walk(fn):
+        if not isinstance(n, ast.If):
+            continue
+        t = n.test
+        if not (isinstance(t, ast.Call) and isinstance(t.func, ast.Name) and t.func.id == "is_equal" and len(t.args) == 2):
+            continue
+        a = t.args[1]
+        if not (isinstance(a, ast.Attribute) and isinstance(a.value, ast.Name) and a.value.id == "self"):
+            continue
+        for st in n.body:
+            c = st.value if isinstance(st, ast.Expr) else None
+            if (isinstance(c, ast.Call) and isinstance(c.func, ast.Attribute) and c.func.attr == "append" and _norm(ast.unparse(c.func.value)) == "subst_to"
+                    and len(c.args) == 1):
+                out.append((a.attr, _norm(ast.unparse(c.args[0])).replace("ret.", "") if _norm(ast.unparse(c.args[0])).startswith("ret.") else _norm(ast.unparse(c.args[0]))))
+    return out
 
 
 def clone_requirement_ok(name, kind, sub):
